@@ -1,12 +1,170 @@
-import ProbLogModel.DDNNF
-/-!
-# C10 — compiled d-DNNF is a valid, equivalent circuit (property theorems only)
--/
-namespace ProbLogProofs.C10
-open ProbLogModel.DDNNF
+/-
+# C10 — a circuit accepted by the d-DNNF validator evaluates to its weighted model count (property theorems only)
 
-/-- A literal line evaluates to the literal's weight (placeholder first obligation; the WMC theorems follow). -/
-theorem C10_evalLine_lit {R} (sr : SR R) (w : Int → R) (acc : List R) (l : Int) :
-    evalLine sr w acc (.lit l) = w l := rfl
+Model: `ProbLogModel.DDNNF` (`Circuit`, `evalC`, `validate`, `rootVars`), semantics `ProbLogModel.DDNNF.satC`
+(`ProbLogModel/DDNNFSem.lean`).  Finset-level wrappers (`ProbLogProofs.DDNNF`): `assign T x = (x ∈ T)`,
+`rootVarsF c = (rootVars c).toFinset`, `satRoot c T = satC (assign T) c`,
+`models c = {T ⊆ rootVarsF c | satRoot c T}`, `cnfModels N V = {T ⊆ V | every clause of N true under T}`,
+`srOf R = ⟨0, 1, (+), (*)⟩` for a Mathlib `CommSemiring R`.
+All theorems hold for every circuit, all weights and every commutative semiring.
+-/
+import ProbLogProofs.Lemmas.DDNNFRoot
+import ProbLogProofs.Lemmas.DDNNFWeights
+import Mathlib.Algebra.Ring.Rat
+
+open Finset
+
+namespace ProbLogProofs.C10
+open ProbLogModel.DDNNF ProbLogProofs.DDNNF
+
+variable {R : Type} [CommSemiring R]
+
+/-- the example circuit `(x1 ∧ x2) ∨ (¬x1 ∧ ¬x2)` with decision variable 1 -/
+def exC : Circuit :=
+  [.lit 1, .lit (-1), .lit 2, .lit (-2), .and [0, 2], .and [1, 3], .or 1 [4, 5]]
+
+/-- Evaluation of a validated circuit in any commutative semiring is the weighted model count over the
+circuit's own variables. -/
+theorem C10_eval_is_wmc (c : Circuit) (w : Int → R) (h : validate c = .ok) :
+    evalC (srOf R) w c =
+      ∑ T ∈ (rootVarsF c).powerset with satRoot c T = true,
+        ∏ x ∈ rootVarsF c, (if x ∈ T then w (x : Int) else w (-(x : Int))) := by
+  rw [evalC_is_wmc (validate_valid h) w, wmc_eq_sum_models]
+  rfl
+
+example : validate exC = .ok := by decide
+example : rootVars exC = [1, 2] := by decide
+example : evalC natSR (fun l => if l = 1 then 2 else if l = 2 then 3 else 1) exC = 7 := by decide
+
+/-- every line, not only the root: value of line `i` = weighted model count of line `i` over `vars c i` -/
+theorem C10_line_is_wmc (c : Circuit) (w : Int → R) (h : validate c = .ok) (i : Nat) (hi : i < c.length) :
+    (evalLines (srOf R) w c).getD i 0 =
+      ∑ T ∈ (vars c i).powerset with sat c i T = true,
+        ∏ x ∈ vars c i, (if x ∈ T then w (x : Int) else w (-(x : Int))) := by
+  have := val_is_wmc (validate_valid h) w i hi
+  unfold valAt wmc at this
+  rw [this, Finset.sum_filter]
+  rfl
+
+/-- the syntactic determinism check is sound -/
+theorem C10_impliesLit_sound (c : Circuit) (h : validate c = .ok) (T : Finset Nat) (fuel i : Nat) (l : Int)
+    (himp : impliesLit c fuel i l = true) (hs : sat c i T = true) : litTrue (assign T) l = true :=
+  impliesLit_sound (validate_valid h).forward (assign T) fuel i l himp hs
+
+/-! ### what acceptance by the validator means semantically (the three d-DNNF conditions of the property text) -/
+
+/-- AND lines are decomposable: children have pairwise disjoint variable sets. -/
+theorem C10_decomposable (c : Circuit) (h : validate c = .ok) (i : Nat) (hi : i < c.length) (cs : List Nat)
+    (hnd : c[i] = .and cs) : cs.Pairwise (fun a b => Disjoint (vars c a) (vars c b)) := by
+  have := (validate_valid h).and_decomposable hi hnd
+  rw [pairwise_iff, List.pairwise_map] at this
+  exact this.imp (fun hab => (disjointVars_iff _ _).mp hab)
+
+/-- OR lines are smooth and deterministic: any two children have the same variables and are never true together. -/
+theorem C10_smooth_deterministic (c : Circuit) (h : validate c = .ok) (i : Nat) (hi : i < c.length) (j : Nat)
+    (cs : List Nat) (hnd : c[i] = .or j cs) :
+    cs.Pairwise (fun a b => vars c a = vars c b ∧ ∀ T, ¬ (sat c a T = true ∧ sat c b T = true)) := by
+  have hv := validate_valid h
+  rcases hv.or_cases hi hnd with rfl | ⟨a, rfl⟩ | ⟨a, b, rfl, hsm, _, l, hl, ha, hb⟩
+  · exact List.Pairwise.nil
+  · exact List.pairwise_singleton _ _
+  · rw [List.pairwise_pair]
+    exact ⟨by unfold vars; rw [hsm], fun T => hv.or_exclusive (assign T) hl ha hb⟩
+
+/-- the validator does reject: an OR of two independent literals (not deterministic), an OR of children with
+different variables (not smooth), an AND of a variable with itself (not decomposable), a forward reference -/
+example : validate [.lit 1, .lit 2, .or 1 [0, 1]] ≠ .ok := by decide
+example : validate [.lit 1, .lit (-1), .lit 2, .and [1, 2], .or 1 [0, 3]] ≠ .ok := by decide
+example : validate [.lit 1, .lit 1, .and [0, 1]] ≠ .ok := by decide
+example : validate [.and [1], .lit 1] ≠ .ok := by decide
+
+/-- Model counting: with `R = ℕ` and all weights 1 the value is the number of models. -/
+theorem C10_count (c : Circuit) (h : validate c = .ok) :
+    evalC natSR (fun _ => 1) c = (models c).card := by
+  have := C10_eval_is_wmc (R := ℕ) c (fun _ => 1) h
+  rw [srOf_nat] at this
+  rw [this]
+  simp [models]
+
+example : evalC natSR (fun _ => 1) exC = 2 := by decide
+
+/-- Conditioning on the negation of a clause: if the count with weight 0 on the literals of `κ` is 0, every model
+of the circuit satisfies `κ`. -/
+theorem C10_entails (c : Circuit) (κ : List Int) (h : validate c = .ok) (h0 : (0 : Int) ∉ κ)
+    (hz : evalC natSR (fun l => if l ∈ κ then 0 else 1) c = 0) :
+    ∀ T ∈ models c, clauseTrue (assign T) κ = true := by
+  intro T hT
+  have he := evalC_is_wmc (R := ℕ) (validate_valid h) (fun l => if l ∈ κ then 0 else 1)
+  rw [srOf_nat, hz, wmc_eq_sum_models] at he
+  exact wt_cond_zero κ h0 _ T (nat_sum_eq_zero _ _ he.symm T hT)
+
+example : evalC natSR (fun l => if l ∈ [1, -2] then 0 else 1) exC = 0 := by decide
+
+/-- finite sets: inclusion + equal cardinality ⇒ equality -/
+theorem C10_equiv_sets {α : Type} (A B : Finset α) (hsub : A ⊆ B) (hcard : A.card = B.card) : A = B :=
+  Finset.eq_of_subset_of_card_le hsub (by omega)
+
+/-- "entails every clause + equal model count ⇒ same models as the CNF" (over the circuit's variables). -/
+theorem C10_equiv (c : Circuit) (N : List (List Int)) (h : validate c = .ok)
+    (h0 : ∀ κ ∈ N, (0 : Int) ∉ κ)
+    (hent : ∀ κ ∈ N, evalC natSR (fun l => if l ∈ κ then 0 else 1) c = 0)
+    (hcount : evalC natSR (fun _ => 1) c = (cnfModels N (rootVarsF c)).card) :
+    models c = cnfModels N (rootVarsF c) := by
+  apply C10_equiv_sets
+  · intro T hT
+    have hsub : T ∈ (rootVarsF c).powerset := (Finset.mem_filter.mp hT).1
+    unfold cnfModels
+    rw [Finset.mem_filter]
+    refine ⟨hsub, ?_⟩
+    rw [List.all_eq_true]
+    intro κ hκ
+    exact C10_entails c κ h (h0 κ hκ) (hent κ hκ) T hT
+  · rw [← C10_count c h, hcount]
+
+example : models exC = cnfModels [[1, -2], [-1, 2]] (rootVarsF exC) :=
+  C10_equiv exC [[1, -2], [-1, 2]] (by decide) (by decide) (by decide) (by decide)
+
+/-- The query trick of `SimpleDDNNFEvaluator.evaluate` (`_set_value`): zeroing the weight of `¬q` and evaluating
+the root gives the weighted count of the models in which `q` is true. -/
+theorem C10_query_trick (c : Circuit) (w : Int → R) (q : Int) (h : validate c = .ok) (hq : q ≠ 0)
+    (hmem : q.natAbs ∈ rootVarsF c) :
+    evalC (srOf R) (fun l => if l = -q then 0 else w l) c =
+      ∑ T ∈ models c with litTrue (assign T) q = true,
+        ∏ x ∈ rootVarsF c, (if x ∈ T then w (x : Int) else w (-(x : Int))) := by
+  rw [evalC_is_wmc (validate_valid h), wmc_eq_sum_models, Finset.sum_filter]
+  apply Finset.sum_congr rfl
+  intro T _
+  exact wt_query w _ T hq hmem
+
+example : (2 : Int).natAbs ∈ rootVarsF exC := by decide
+
+/-- `SimpleDDNNFEvaluator._set_value(|k|, k > 0)` (model `setValue`) on the evaluator's weight table is exactly the
+weight change of `C10_query_trick`: the weight of the literal `-k` becomes 0, nothing else changes. -/
+theorem C10_setValue_weights (ws : List (Nat × (Rat × Rat))) (k : Int) (hk : k ≠ 0) :
+    litWeight (setValue ws k.natAbs (decide (k > 0))) = fun l => if l = -k then 0 else litWeight ws l :=
+  litWeight_setValue ws k hk
+
+/-- … hence evaluating the circuit with the table after `_set_value` gives the weighted count of the models with `k`
+(probability semiring, exact rationals). -/
+theorem C10_query_trick_setValue (c : Circuit) (ws : List (Nat × (Rat × Rat))) (k : Int) (h : validate c = .ok)
+    (hk : k ≠ 0) (hmem : k.natAbs ∈ rootVarsF c) :
+    evalC ratSR (litWeight (setValue ws k.natAbs (decide (k > 0)))) c =
+      ∑ T ∈ models c with litTrue (assign T) k = true,
+        ∏ x ∈ rootVarsF c, (if x ∈ T then litWeight ws (x : Int) else litWeight ws (-(x : Int))) := by
+  rw [C10_setValue_weights ws k hk]
+  exact C10_query_trick (R := ℚ) c (litWeight ws) k h hk hmem
+
+/-- A homomorphism of semiring records commutes with circuit evaluation (no validity needed). -/
+theorem C05_hom {A B : Type} (sr : SR A) (sr' : SR B) (f : A → B) (hf : SRHom sr sr' f)
+    (w : Int → A) (c : Circuit) : f (evalC sr w c) = evalC sr' (f ∘ w) c :=
+  evalC_hom hf w c
+
+/-- … in particular every Mathlib ring homomorphism between commutative semirings. -/
+theorem C05_hom_ring {S : Type} [CommSemiring S] (f : R →+* S) (w : Int → R) (c : Circuit) :
+    f (evalC (srOf R) w c) = evalC (srOf S) (f ∘ w) c :=
+  evalC_hom (ringHom_srHom f) w c
+
+example : SRHom natSR ratSR (fun n : Nat => (n : Rat)) :=
+  ⟨rfl, rfl, fun a b => by simp [natSR, ratSR], fun a b => by simp [natSR, ratSR]⟩
 
 end ProbLogProofs.C10
